@@ -722,3 +722,90 @@ def call_arg(ctx, fi, call: ast.Call, pname: str, ref_pos: Optional[int] = None)
     if ref_pos is not None and ref_pos < len(call.args):
         return call.args[ref_pos]
     return None
+
+
+def per_item_obligations(ctx, quals) -> List:
+    """What a loop hands out for the current item was computed for the current item: in each `for` loop of the given
+    generator functions, a variable that is assigned inside the loop body and used in a `yield` of that body is assigned on
+    every path from the loop head to that yield (no value left over from the previous item, no pre-loop default standing in
+    for it)."""
+    obs = []
+    for q in quals:
+        cq, _, m = q.rpartition(".")
+        try:
+            fi = ctx.own_method(cq, m) if cq in ctx.P.classes else ctx.func(q)
+        except AnalysisError:
+            fi = ctx.func(q)
+        cfg = ctx.cfg(fi)
+        heads = [n for n in cfg.nodes if n.kind == "for"]
+        n_y = 0
+        for head in heads:
+            body = loop_body_nodes(cfg, head)
+            # names assigned somewhere in the body
+            assigned = set()
+            for n in cfg.nodes:
+                if n.id not in body:
+                    continue
+                a = n.ast
+                if n.kind == "stmt" and isinstance(a, (ast.Assign, ast.AnnAssign)):
+                    for t in (a.targets if isinstance(a, ast.Assign) else [a.target]):
+                        for x in ast.walk(t):
+                            if isinstance(x, ast.Name) and isinstance(x.ctx, ast.Store):
+                                assigned.add(x.id)
+            for y in [n for n in cfg.nodes if n.id in body and n.kind == "stmt" and isinstance(n.ast, ast.Expr) and isinstance(n.ast.value, ast.Yield)
+                      and n.ast.value.value is not None]:
+                # the innermost loop the yield belongs to decides
+                inner = [h for h in heads if h is not head and h.id in body and y.id in loop_body_nodes(cfg, h)]
+                if inner:
+                    continue
+                n_y += 1
+                used = {x.id for x in ast.walk(y.ast.value.value) if isinstance(x, ast.Name) and isinstance(x.ctx, ast.Load)}
+                stale = sorted(v for v in used & assigned if y in carried_uses(cfg, head, v))
+                obs.append(ctx.ob(not stale, fi.qualname, where(fi, y), "yield uses values of the current iteration",
+                                  "`%s`: every variable assigned in the loop is assigned before the yield" % src(y.ast.value.value)[:50],
+                                  "`%s` can hand out `%s` as it was left by an earlier iteration (or by the default set before the loop): the "
+                                  "answer for one member carries data that belongs to another" % (src(y.ast.value)[:60], ", ".join(stale))))
+    return obs
+
+
+LISTER_FUNCS = ["xandikos.store.git.GitStore.iter_with_etag", "xandikos.store.vdir.VdirStore.iter_with_etag",
+                "xandikos.store.git.BareGitStore._iterblobs", "xandikos.store.git.TreeGitStore._iterblobs",
+                "xandikos.store.git.TreeGitStore.subdirectories", "xandikos.store.vdir.VdirStore.subdirectories",
+                "xandikos.web.StoreBasedCollection.members", "xandikos.web.CollectionSetResource.members"]
+
+
+def total_loop_obligations(ctx, quals=None, scan=("xandikos.store.Store.get_type",)) -> List:
+    """Listing loops run to the end: no `break` and no `return` inside the loops of the listers (one odd entry - a
+    leftover temporary file, a foreign file - must not hide the entries after it).  In a scanning loop that looks for
+    something (*scan*), leaving early is allowed only under a test that says it was found."""
+    obs = []
+    for q in list(quals or LISTER_FUNCS) + list(scan):
+        cq, _, m = q.rpartition(".")
+        fi = ctx.own_method(cq, m) if cq in ctx.P.classes else ctx.func(q)
+        cfg = ctx.cfg(fi)
+        heads = [n for n in cfg.nodes if n.kind == "for"]
+        bad = []
+        for head in heads:
+            body = loop_body_nodes(cfg, head)
+            for n in cfg.nodes:
+                if n.id not in body:
+                    continue
+                is_break = n.kind == "stmt" and isinstance(n.ast, ast.Break)
+                is_ret = n.kind == "return"
+                if not (is_break or is_ret):
+                    continue
+                # a break that belongs to an inner loop is that loop's business
+                inner = [h for h in heads if h is not head and h.id in body and n.id in loop_body_nodes(cfg, h)]
+                if inner and is_break:
+                    continue
+                if q in scan:
+                    conds = [t for t, pol in cfg.required_conditions(n) if pol and isinstance(t, ast.Compare)]
+                    if conds:
+                        continue
+                bad.append(n)
+        obs.append(ctx.ob(not bad, fi.qualname, where(fi, bad[0]) if bad else fi.where, "loop runs over every entry",
+                          "no break / return inside the loop" if q not in scan else "early exit only when found",
+                          "%s leaves its loop early (`%s` at line %d)%s: the entries after that point are not looked at - they are missing from "
+                          "the listing, or do not count for the result" % (fi.short, src(bad[0].ast)[:30] if bad and bad[0].ast is not None else "", bad[0].lineno if bad else 0,
+                                                                        "" if q not in scan else " without having found what it looks for")))
+    return obs
